@@ -1,10 +1,277 @@
 import Driver.Common
-/-! Judge for C11: not built yet (stub so that the target exists). -/
-open Lean Driver
+import EgVerif.Model.HotUpdate
+/-!
+Judges for C11 (hot update):
+
+* `mux`      — pkg/object/httpserver: requests against `mux.ServeHTTP` while `reload` alternates
+               between two specs; every response must be `serve A` or `serve B`, sequential
+               phases must be exactly the current generation.
+* `filters`  — pkg/object/pipeline: old.Init, new.Inherit(old) (+Close), then Handle on the old
+               and the new generation; RateLimiter is compared with the explicit model.
+* `registry` — pkg/object/trafficcontroller: create/update/apply/delete histories against the
+               registry model, background readers on untouched names.
+-/
+open Lean Driver EgVerif EgVerif.HotUpdate
 
 namespace Driver.C11
 
-def judges : List (String × Judge) := []
+/-! ### filters -/
+
+structure FOut where
+  panic : String
+  result : String
+  status : Int
+deriving BEq, Repr
+
+def parseOut (j : Json) : FOut :=
+  { panic := optStr j "panic", result := optStr j "result", status := optInt j "status" }
+
+def parseOuts (obs : Json) (k : String) : List FOut :=
+  match getArr obs k with
+  | .ok a => a.toList.map parseOut
+  | .error _ => []
+
+def parseFReq (j : Json) : FReq :=
+  { method := optStr j "method" "GET", path := optStr j "path" "/" }
+
+def strListOpt (j : Json) (k : String) : List String :=
+  match getStrList j k with | .ok l => l | .error _ => []
+
+def parseRLSpec (j : Json) : Except String RLSpec := do
+  let pols ← getArr j "policies"
+  let urls ← getArr j "urls"
+  let ps := pols.toList.map fun p =>
+    ({ name := optStr p "name", limit := (optInt p "limitForPeriod").toNat } : RLPolicy)
+  let us := urls.toList.map fun u =>
+    let m := (u.getObjVal? "url").toOption.getD Json.null
+    ({ methods := strListOpt u "methods", exact := optStr m "exact", pfx := optStr m "prefix",
+       policyRef := optStr u "policyRef" } : URL)
+  pure { defaultRef := optStr j "defaultPolicyRef", policies := ps, urls := us }
+
+def houtOf (o : FOut) : HOut :=
+  if o.panic != "" then .panic
+  else if o.result == "rateLimited" then .limited else .pass
+
+def houtJson (l : List HOut) : Json :=
+  Json.arr (l.map fun o => Json.str (match o with | .pass => "pass" | .limited => "limited" | .panic => "panic")).toArray
+
+def judgeFilters : Judge := liftJudge fun input obs => do
+  let kind := optStr input "kind" "?"
+  let level := optStr input "level" "pipeline"
+  let err := optStr obs "err"
+  let opsIn := (← getArr input "ops").toList
+  let preIn := (← getArr input "pre").toList
+  let ops : List (Bool × FReq) := opsIn.map fun o =>
+    (optInt o "g" != 0, parseFReq ((o.getObjVal? "req").toOption.getD Json.null))
+  let pre : List FReq := preIn.map parseFReq
+  let tags0 := ["kind:" ++ kind, "level:" ++ level]
+  if err == "bad-input" || err == "bad-spec" || err == "init-panic" || err == "budget-exhausted" then
+    return { agree := true, spec := true, tags := tags0 ++ ["skipped:" ++ err], nontrivial := false }
+  if err == "inherit-panic" || err == "close-panic" then
+    return { agree := false, spec := false, tags := tags0 ++ [err], sig := "panic:" ++ err ++ ":" ++ kind,
+             note := optStr obs "note" }
+  if let some m := obsPanic obs then
+    return { agree := false, spec := false, sig := "panic:harness:" ++ kind, note := m }
+  let gotPre := parseOuts obs "pre"
+  let gotOps := parseOuts obs "ops"
+  let base := parseOuts obs "base"
+  let triple := (ops.zip gotOps).zip base
+  -- a panic the never-updated baseline instance does not have is caused by the update
+  let badPanic := triple.find? fun ((_, o), b) => o.panic != "" && b.panic == ""
+  let bad5xx := triple.find? fun ((_, o), b) => o.panic == "" && o.status ≥ 500 && b.status < 500
+  let lenOk := gotOps.length == ops.length && base.length == ops.length && gotPre.length == pre.length
+  let spec := badPanic.isNone && bad5xx.isNone && lenOk
+  let sig :=
+    match badPanic, bad5xx with
+    | some ((g, _), _), _ => (if g.1 then "panic:new-generation-after-inherit:" else "panic:old-generation-after-inherit:") ++ kind
+    | none, some ((g, _), _) => (if g.1 then "5xx:new-generation-after-inherit:" else "5xx:old-generation-after-inherit:") ++ kind
+    | none, none => if lenOk then "" else "truncated:" ++ kind
+  let oldOps := ops.any (fun o => !o.1)
+  let tags1 := tags0 ++ (if oldOps then ["op-on-old-generation"] else []) ++
+    (if ops.any (·.1) then ["op-on-new-generation"] else []) ++
+    (if optBool input "close" || level == "pipeline" then ["old-closed"] else ["old-not-closed"])
+  if kind == "RateLimiter" then
+    let oldS ← parseRLSpec ((input.getObjVal? "old").toOption.getD Json.null)
+    let newS ← parseRLSpec ((input.getObjVal? "new").toOption.getD Json.null)
+    let want := rlScenario false oldS newS pre ops
+    let agree := gotPre.map houtOf == want.1 && gotOps.map houtOf == want.2
+      && (gotPre ++ gotOps).all (fun o => o.panic != "" || (o.result == "rateLimited") == (o.status == 429))
+    let i := rlInit [] oldS
+    let inh := rlInherit false i.1 newS i.2
+    let shared := inh.1.length < i.1.length + newS.urls.length
+    let tags := tags1 ++ (if want.2.contains .limited || want.1.contains .limited then ["limited"] else [])
+      ++ (if shared then ["limiter-shared"] else ["no-limiter-shared"])
+      ++ (if oldS == newS then ["spec-unchanged"] else [])
+    return { agree := agree, spec := spec, expected := Json.mkObj [("pre", houtJson want.1), ("ops", houtJson want.2)],
+             tags := tags, nontrivial := oldOps, sig := sig, note := optStr obs "note" }
+  else
+    -- kinds whose Inherit ignores the previous generation: the model predicts exactly what a
+    -- never-updated instance of the same spec does
+    let agree := lenOk && triple.all fun ((_, o), b) => o == b
+    return { agree := agree, spec := spec, expected := Json.null, tags := tags1, nontrivial := oldOps,
+             sig := sig, note := optStr obs "note" }
+
+/-! ### mux -/
+
+def parsePath (j : Json) : Mux.PathEntry :=
+  { path := optStr j "path", pathPrefix := optStr j "pathPrefix", methods := strListOpt j "methods",
+    rewriteTarget := optStr j "rewriteTarget", backend := optStr j "backend" }
+
+def parseRule (j : Json) : Mux.Rule :=
+  { host := optStr j "host",
+    paths := match getArr j "paths" with | .ok a => a.toList.map parsePath | .error _ => [] }
+
+def parseGen (j : Json) : HGen :=
+  { rules := { rules := match getArr j "rules" with | .ok a => a.toList.map parseRule | .error _ => [] },
+    options := { xForwardedFor := optBool j "xForwardedFor" },
+    mapper := { tag := optStr j "tag", backends := strListOpt j "backends" } }
+
+def parseHReq (j : Json) : HReq :=
+  { q := { host := optStr j "host", hostNoPort := optStr j "hostNoPort", method := optStr j "method" "GET",
+           path := optStr j "path" "/", hdr := [], ip := optStr j "ip" },
+    xffIn := optStr j "xff", xffContains := optBool j "xffContains" }
+
+def parseOutcome (j : Json) : Outcome :=
+  { status := (optInt j "status").toNat, handler := optStr j "handler", path := optStr j "path", xff := optStr j "xff" }
+
+def outcomeJson (o : Outcome) : Json :=
+  Json.mkObj [("status", Json.num (o.status : Int)), ("handler", o.handler), ("path", o.path), ("xff", o.xff)]
+
+def judgeMux : Judge := liftJudge fun input obs => do
+  if let some m := obsPanic obs then
+    return { agree := false, spec := false, sig := "panic:mux", note := m }
+  if optStr obs "err" != "" then
+    return { agree := true, spec := true, tags := ["skipped:" ++ optStr obs "err"], nontrivial := false }
+  let gA := parseGen ((input.getObjVal? "a").toOption.getD Json.null)
+  let gB := parseGen ((input.getObjVal? "b").toOption.getD Json.null)
+  -- answers of the Go standard library (SplitHostPort, realip, strings.Contains) travel in obs.oracle
+  let oracle := (← getArr obs "oracle").toList
+  let reqs := ((← getArr input "reqs").toList.zip oracle).map fun (q, o) =>
+    let h := parseHReq q
+    ({ h with q := { h.q with hostNoPort := optStr o "hostNoPort", ip := optStr o "ip",
+                              host := if optStr q "host" == "" then "a.com" else optStr q "host" },
+              xffContains := optBool o "xffContains" } : HReq)
+  let wantA := reqs.map (serve gA)
+  let wantB := reqs.map (serve gB)
+  let seqA := (← getArr obs "seqA").toList.map parseOutcome
+  let seqB := (← getArr obs "seqB").toList.map parseOutcome
+  -- storm: per request template the list of distinct outcomes seen while reloads were running
+  let storm := (← getArr obs "storm").toList.map fun a =>
+    match a.getArr? with | .ok l => l.toList.map parseOutcome | .error _ => []
+  let seqOk := seqA == wantA && seqB == wantB
+  let rows := (storm.zip wantA).zip wantB
+  let mixed := rows.find? fun ((seen, a), b) => seen.any (fun o => o != a && o != b)
+  let stormOk := mixed.isNone && storm.length == reqs.length
+  let fiveXX := rows.any fun ((seen, a), b) => seen.any (fun o => o.status ≥ 500 && a.status < 500 && b.status < 500)
+  let both := rows.filter (fun ((seen, a), b) => a != b && seen.contains a && seen.contains b) |>.length
+  let differ := (wantA.zip wantB).filter (fun (a, b) => a != b) |>.length
+  let jointly := (wantA.zip wantB).any fun (a, b) => a.status == 200 && b.status == 200 &&
+      a.handler != b.handler && a.xff != b.xff
+  let tags := (if differ > 0 then ["outcomes-differ"] else ["outcomes-equal"]) ++
+      (if both > 0 then ["both-generations-observed"] else []) ++
+      (if jointly then ["differ-jointly-in-backend-and-xff"] else []) ++
+      (if (wantA ++ wantB).any (·.status == 503) then ["503"] else []) ++
+      (if (wantA ++ wantB).any (·.status == 404) then ["404"] else []) ++
+      (if (wantA ++ wantB).any (·.status == 405) then ["405"] else []) ++
+      (if (wantA ++ wantB).any (fun o => o.status == 200 && o.path != "") then ["200"] else [])
+  let spec := seqOk && stormOk
+  let panicked := storm.any (fun seen => seen.any (fun o => o.handler.startsWith "panic:")) ||
+      (seqA ++ seqB).any (fun o => o.handler.startsWith "panic:")
+  let reloadPanic := optStr obs "reloadPanic"
+  let sig := if reloadPanic != "" then "mux:reload-panicked"
+    else if panicked then "mux:request-panicked-during-reload"
+    else if !stormOk then (if fiveXX then "mux:5xx-during-reload" else "mux:mixed-generation-response")
+    else if !seqOk then "mux:stale-or-wrong-generation-after-reload" else ""
+  let spec := spec && reloadPanic == ""
+  return { agree := spec, spec := spec,
+           expected := Json.mkObj [("a", Json.arr (wantA.map outcomeJson).toArray), ("b", Json.arr (wantB.map outcomeJson).toArray)],
+           tags := tags, nontrivial := differ > 0 && both > 0, sig := sig,
+           note := match mixed with | some ((seen, _), _) => "seen " ++ (Json.arr (seen.map outcomeJson).toArray).compress | none => "" }
+
+/-! ### registry -/
+
+def parseOp (j : Json) : Option Op :=
+  let n := optStr j "name"
+  let s := (optInt j "spec").toNat
+  match optStr j "op" with
+  | "create" => some (.create n s)
+  | "update" => some (.update n s)
+  | "apply" => some (.apply n s)
+  | "delete" => some (.delete n)
+  | _ => none
+
+def resStr : Res → String
+  | .created => "created" | .updated => "updated" | .unchanged => "unchanged"
+  | .deleted => "deleted" | .notFound => "notFound"
+
+/-- Snapshot of the model: for every name of interest (instance id, spec, closed?) or null. -/
+def snapJson (r : Reg) (names : List String) : Json :=
+  Json.arr (names.map fun n => match r.ents n with
+    | none => Json.null
+    | some e => Json.arr #[Json.num (e.inst : Int), Json.num (e.spec : Int), Json.num (e.generation : Int)]).toArray
+
+def judgeRegistry : Judge := liftJudge fun input obs => do
+  if let some m := obsPanic obs then
+    return { agree := false, spec := false, sig := "panic:registry", note := m }
+  if optStr obs "err" != "" then
+    return { agree := true, spec := true, tags := ["skipped:" ++ optStr obs "err"], nontrivial := false }
+  let names ← getStrList input "names"
+  let setup := match getArr input "setup" with | .ok a => a.toList | .error _ => []
+  let ops := (setup ++ (← getArr input "ops").toList).filterMap parseOp
+  let steps := (← getArr obs "steps").toList
+  -- run the model, collecting (result, snapshot) after every op
+  let rec go (r : Reg) : List Op → List (String × Json)
+    | [] => []
+    | o :: rest => let x := r.step o; (resStr x.2, snapJson x.1 names) :: go x.1 rest
+  let want := go Reg.empty ops
+  let got := steps.map fun s => (optStr s "res", (s.getObjVal? "snap").toOption.getD Json.null)
+  let agree := got.length == want.length && (got.zip want).all fun (g, w) => g.1 == w.1 && g.2.compress == w.2.compress
+  -- executable spec on what the implementation did: frame + no-op, evaluated on the observed snapshots
+  let snapOf (j : Json) (i : Nat) : Json := match j.getArr? with | .ok a => a.toList.getD i Json.null | .error _ => Json.null
+  let idxs := List.range names.length
+  let rec frame (prev : Json) : List (Op × (String × Json)) → Option String
+    | [] => none
+    | (o, (res, snap)) :: rest =>
+      let others := idxs.all fun i => names.getD i "" == o.name || (snapOf prev i).compress == (snapOf snap i).compress
+      -- "applying an unchanged spec is a no-op": decided from the *input* and the previous
+      -- observed snapshot (spec of that name), not from what the implementation reported
+      let self := names.idxOf o.name
+      let sameSpec := match o with
+        | .apply _ sp => match (snapOf prev self).getArr? with
+            | .ok a => (a.toList.getD 1 Json.null).compress == (Json.num (sp : Int)).compress
+            | .error _ => false
+        | _ => false
+      let noop := (res != "unchanged" && !sameSpec) || prev.compress == snap.compress
+      -- "once the update has been applied every new request sees the new generation"
+      let visible := match o with
+        | .delete _ => true
+        | .create _ sp | .update _ sp | .apply _ sp =>
+          res == "notFound" || (match (snapOf snap self).getArr? with
+            | .ok a => (a.toList.getD 1 Json.null).compress == (Json.num (sp : Int)).compress
+            | .error _ => false)
+      if !others then some "registry:other-object-changed"
+      else if !visible then some "registry:applied-update-not-visible"
+      else if !noop then some "registry:unchanged-apply-not-a-noop"
+      else frame snap rest
+  let emptySnap := snapJson Reg.empty names
+  let fr := frame emptySnap (ops.zip got)
+  let bgMiss := optInt obs "bgMiss"
+  let bgWrong := optInt obs "bgWrong"
+  let handleBad := optInt obs "handleBad"
+  let spec := fr.isNone && bgMiss == 0 && bgWrong == 0 && handleBad == 0
+  let sig := match fr with
+    | some s => s
+    | none => if bgMiss != 0 then "registry:untouched-object-unavailable"
+              else if bgWrong != 0 then "registry:untouched-object-wrong-generation"
+              else if handleBad != 0 then "registry:handler-of-live-object-failed" else ""
+  let tags := (ops.map fun o => match o with
+      | .create .. => "create" | .update .. => "update" | .apply .. => "apply" | .delete .. => "delete").eraseDups
+    ++ (want.map (·.1)).eraseDups.map ("res:" ++ ·)
+  return { agree := agree, spec := spec, expected := Json.arr (want.map fun w => Json.mkObj [("res", w.1), ("snap", w.2)]).toArray,
+           tags := tags, nontrivial := (want.any (·.1 == "updated")) && optInt obs "bgReads" > 0, sig := sig }
+
+def judges : List (String × Judge) :=
+  [("filters", judgeFilters), ("mux", judgeMux), ("registry", judgeRegistry)]
 
 end Driver.C11
 
